@@ -1,5 +1,99 @@
-//! C11(c) — every emitted datagram is well-formed (filled in once the simulator exists).
-use crate::engine::*;
+//! C11(c) — every datagram the library emits is accepted by the independent BEP-29 parser, carries
+//! version 1 and the connection id owed to its direction. The simulator evaluates this for every
+//! datagram a real socket sends (`WirePredicates::malformed`); the sub-checks here drive three kinds of
+//! emitters and assert that the list stays empty.
+use proptest::prelude::*;
 use serde_json::Value;
-pub fn run(_ctx: &mut Ctx) {}
-pub fn replay(_v: &Value) -> Option<i32> { None }
+
+use crate::engine::*;
+use crate::model::refparse;
+use crate::props::{c01, c10, c12};
+use crate::sim::{WirePredicates, WireRec, e2e, mc, sp};
+
+fn judge(preds: &WirePredicates, log: &[WireRec]) -> Outcome {
+    if let Some((idx, why)) = preds.malformed.first() {
+        return Outcome::violation("emit/malformed", format!("log #{idx}: {why}"));
+    }
+    let mut o = Outcome::pass();
+    let emitted: Vec<&WireRec> = log.iter().filter(|r| r.from_stack).collect();
+    let mut labels = std::collections::BTreeSet::new();
+    let mut fp = Fp::default();
+    for r in &emitted {
+        let Some(p) = &r.pkt else { continue };
+        if p.version != 1 {
+            return Outcome::violation("emit/version", format!("log #{}: emitted datagram carries version {}", r.idx, p.version));
+        }
+        if (p.ptype == refparse::ST_DATA) != !p.payload.is_empty() {
+            return Outcome::violation("emit/payload-rule", format!("log #{}: {} with {} payload bytes", r.idx, p.short(), p.payload.len()));
+        }
+        match p.ptype {
+            refparse::ST_RESET => { labels.insert("reset_emitted"); }
+            refparse::ST_FIN => { labels.insert("fin_emitted"); }
+            _ => {}
+        }
+        if p.last_ext(1).is_some() { labels.insert("sack_emitted"); }
+        if p.exts.len() >= 2 { labels.insert("two_extensions_emitted"); }
+        if p.exts.iter().any(|e| e.0 != 1) { labels.insert("other_extension_emitted"); }
+        fp.add(((p.ptype as u64) << 16) | (p.exts.len() as u64) << 8 | (p.payload.len() as u64 & 0xff));
+    }
+    o.labels = labels.into_iter().collect();
+    o.nontrivial = emitted.len() >= 10 && o.labels.contains(&"sack_emitted");
+    fp.add(emitted.len() as u64);
+    o.fingerprint = fp.get();
+    o
+}
+
+pub struct EmitE2e;
+impl CheckDef for EmitE2e {
+    type Case = c01::Case;
+    const NAME: &'static str = "emit-e2e";
+    fn strategy(tier: Tier) -> BoxedStrategy<Self::Case> {
+        c01::scenario_strategy(tier.pick(60_000, 300_000), tier.pick(250, 600)).prop_map(|sc| c01::Case { sc, no_guard: true }).boxed()
+    }
+    fn run(case: &Self::Case, trace: bool) -> Outcome {
+        let res = e2e::run(&case.sc, trace);
+        judge(&res.preds, &res.log)
+    }
+}
+
+pub struct EmitSp;
+impl CheckDef for EmitSp {
+    type Case = c10::Case;
+    const NAME: &'static str = "emit-sp";
+    fn strategy(tier: Tier) -> BoxedStrategy<Self::Case> {
+        <c10::Hostile as CheckDef>::strategy(tier)
+    }
+    fn run(case: &Self::Case, trace: bool) -> Outcome {
+        let _ = take_panics();
+        let res = sp::run(case, trace);
+        let _ = take_panics(); // (panics are C10's business)
+        judge(&res.preds, &res.log)
+    }
+}
+
+pub struct EmitMc;
+impl CheckDef for EmitMc {
+    type Case = c12::Case;
+    const NAME: &'static str = "emit-mc";
+    fn strategy(tier: Tier) -> BoxedStrategy<Self::Case> {
+        <c12::Mc as CheckDef>::strategy(tier)
+    }
+    fn run(case: &Self::Case, trace: bool) -> Outcome {
+        let res = mc::run(case, trace);
+        judge(&res.preds, &res.log)
+    }
+}
+
+pub fn run(ctx: &mut Ctx) {
+    ctx.rule("(iii) emitters: lossy end-to-end transfers (SACKs, FINs, probes), a socket under hostile traffic (RESET replies, SACKs for damaged arrival orders, handshake answers to crafted SYNs) and concurrent connect/accept workloads (many ids between the same addresses). Every datagram a real socket sends is parsed by the independent reference parser inside the simulator: accepted, version 1, payload exactly on data packets, and a connection id that a SYN between the two addresses justifies for that direction (SYN id + 1 from the initiator, SYN id from the acceptor). non-trivial = >= 10 emissions incl. a selective ack; distinct by hash of (type, extensions, length) sequence");
+    ctx.replay_corpus::<EmitE2e>();
+    ctx.replay_corpus::<EmitSp>();
+    ctx.replay_corpus::<EmitMc>();
+    ctx.run_generated::<EmitE2e>(ctx.tier.pick(8_000, 300_000));
+    ctx.run_generated::<EmitSp>(ctx.tier.pick(10_000, 300_000));
+    ctx.run_generated::<EmitMc>(ctx.tier.pick(8_000, 300_000));
+}
+
+pub fn replay(v: &Value) -> Option<i32> {
+    replay_file::<EmitE2e>("C11", v).or_else(|| replay_file::<EmitSp>("C11", v)).or_else(|| replay_file::<EmitMc>("C11", v))
+}
